@@ -79,7 +79,9 @@ def plan(prop, tier):
         return [G("prio", Leaves="<-LvCore", Quants="<-QAll", MaxSize=4 if q else 5, MaxLen=3 if q else 4),
                 G("astral", Leaves="<-LvAstral", Quants="<-QSmall", MaxSize=3 if q else 4, Alpha="{66560, 769, 97}",
                   MaxLen=3),
-                T("rand", "spans", 1500, 30000), T("astralr", "astral", 500, 10000)]
+                G("ml", Leaves="<-LvAnch", Quants="<-QSmall", MaxSize=3 if q else 4, FlagSets="<-FlagsMS",
+                  Alpha="{97, 10}", MaxLen=4),
+                T("rand", "spans", 1500, 30000), T("astralr", "astral", 500, 10000), T("mlr", "anchors", 1000, 20000)]
     if prop == "C03":
         return [G("caps", Leaves="<-LvAB", Quants="<-QSmall", MaxSize=5 if q else 6, MaxGroups=3, Repl2="<-ReplGroups",
                   MaxLen=3 if q else 4),
@@ -91,7 +93,10 @@ def plan(prop, tier):
                   Variants='{"base", "xsd"}'),
                 G("astral", Leaves="<-LvAstral", Quants="<-QSmall", MaxSize=3 if q else 4, Alpha="{66560, 769, 97}",
                   MaxLen=3, Variants='{"base", "xsd"}'),
-                T("rand", "spans", 1000, 20000), T("astralr", "astral", 1000, 20000)] + ([] if q else [SUITE])
+                G("ml", Leaves="<-LvAnch", Quants="<-QSmall", MaxSize=3 if q else 4, FlagSets="<-FlagsMS",
+                  Alpha="{97, 10}", MaxLen=4, Repl2="<-ReplHash"),
+                T("rand", "spans", 1000, 20000), T("astralr", "astral", 1000, 20000),
+                T("mlr", "anchors", 1000, 20000)] + ([] if q else [SUITE])
     if prop == "C05":
         return [K("tok", Toks='"core"', MaxToks=4 if q else 5, Dialects="{TRUE, FALSE}"),
                 K("wide", Toks='"wide"', MaxToks=3 if q else 4),
@@ -125,6 +130,11 @@ def plan(prop, tier):
                        Alpha="{97, 10}", MaxLen=3), **o),
                 dict(G("sem", MaxSize=3 if q else 4, MaxLen=3), **o),
                 T("rand", "general", 2000, 40000, unopt=True), T("case", "case", 1000, 20000, unopt=True)]
+    if prop == "C09":
+        return [{"type": "classes", "tag": "cls", "nrand": 300 if q else 3000, "full": 150 if q else 100000},
+                K("class", Toks='"class"', MaxToks=4 if q else 6)]
+    if prop == "C10":
+        return [{"type": "unicode", "tag": "uni"}, T("names", "classes", 200, 2000, mode="names")]
     if prop == "C11":
         return [G("ascii", Leaves="<-LvCase", Quants="<-QSmall", MaxSize=3 if q else 4, FlagSets="<-FlagsI",
                   Alpha="{97, 65, 66, 49}", MaxLen=3),
@@ -197,6 +207,36 @@ def run_check(prop, tier):
             stage_info.append({"stage": st["tag"], "consts": {k: str(v) for k, v in st["consts"].items()},
                                "invariants": st["invs"], "tlc_states": info["distinct"], "wall_s": info["wall_s"],
                                "behaviours": stats["behaviours"]})
+        elif st["type"] == "unicode":
+            d, us, files = orch.sweep_unicode(tag)
+            tt, mm = orch.parallel_trace_specs(tag, files, "UnicodeTrace.tla", "UnicodeTrace.cfg")
+            tot["states"] += tt["states"]
+            tot["transitions"] += tt["states"]
+            tot["trace_events"] = tot.get("trace_events", 0) + tt["lines"]
+            tot["trace_compared"] = tot.get("trace_compared", 0) + tt["lines"] * us["escapes"]
+            tot["trace_jobs"] = tot.get("trace_jobs", 0) + us["segments"]
+            gen = orch.check_block_generator()
+            samples.append({"unicode_sweep": us, "block_generator": gen["summary"]})
+            for (f, line, kind, info) in mm:
+                allviol.append({"kind": "unicode", "pat_s": json.dumps(info, ensure_ascii=False)[:300], "flags": "", "s_s": "",
+                                "call": "sweep", "expected": info, "observed": None, "cut": 0, "src": tag})
+            for g in gen["problems"]:
+                allviol.append({"kind": "unicode", "pat_s": g, "flags": "", "s_s": "", "call": "block generator",
+                                "expected": None, "observed": None, "cut": 0, "src": tag})
+            stage_info.append({"stage": st["tag"], "sweep": us, "runs_validated": tt["lines"], "shards": len(files),
+                               "exhaustive_over_scalars": True, "block_generator": gen["summary"]})
+        elif st["type"] == "classes":
+            d, cs, viols = orch.sweep_classes(tag, seed, st["nrand"], st["full"])
+            tot["states"] += cs["states"]
+            tot["transitions"] += cs["states"]
+            tot["trace_events"] = tot.get("trace_events", 0) + cs["events"]
+            tot["trace_compared"] = tot.get("trace_compared", 0) + cs["compared"]
+            tot["trace_jobs"] = tot.get("trace_jobs", 0) + cs["classes"]
+            samples += cs["samples"]
+            for v in viols:
+                v["src"] = tag
+            allviol += viols
+            stage_info.append({"stage": st["tag"], "classes": cs})
         elif st["type"] in ("trace", "suite"):
             if st["type"] == "trace":
                 n = st["count"][0] if tier == "quick" else st["count"][1]
